@@ -36,13 +36,13 @@ Other(d) == IF d = "c" THEN "s" ELSE "c"
 Class(s) == CASE s = "1301" -> "a" [] s = "1302" -> "b" [] s = "1303" -> "c" [] s = "1304" -> "d" [] OTHER -> "none"
 OtherSuite(s) == IF s = "1301" THEN "1302" ELSE "1301"
 
-VARIABLES suite, first, split, twoPkts, retry, zrtt, coalesce, cfApp,   \* world
+VARIABLES suite, first, split, twoPkts, retry, zrtt, coalesce, cfApp, sfApp,   \* world
           pc, chSent, retried, sgen, acked, nApp, nextId, dgId, expect, held, sn,  \* environment / ground truth
           initFrom, off, frags, haveCR, suiteSeen, tlsKeys, earlyKeys,   \* QuicSession / QuicTlsSession
           epoch, lastPhase, gens, outbuf,
           kfTaken, hist
 
-world == <<suite, first, split, twoPkts, retry, zrtt, coalesce, cfApp>>
+world == <<suite, first, split, twoPkts, retry, zrtt, coalesce, cfApp, sfApp>>
 envv  == <<pc, chSent, retried, sgen, acked, nApp, nextId, dgId, expect, held, sn>>
 implv == <<initFrom, off, frags, haveCR, suiteSeen, tlsKeys, earlyKeys, epoch, lastPhase, gens, outbuf>>
 vars  == <<world, envv, implv, kfTaken, hist>>
@@ -162,10 +162,13 @@ ServerFlight ==
   /\ LET i == P("I", "s", 0, <<F("other", "ack", 0), F("crypto", "SH", 1)>>)
          h == P("H", "s", 0, <<F("crypto", "SF", 1)>>)
          shSent == \E k \in 1..Len(hist) : hist[k].d = "s" /\ hist[k].pkts[1].t = "I"
-     IN IF coalesce THEN Send("s", <<i, h>>) /\ pc' = 4
-        ELSE IF ~shSent THEN Send("s", <<i>>) /\ pc' = 3
-        ELSE Send("s", <<h>>) /\ pc' = 4
-  /\ UNCHANGED <<world, chSent, retried, sgen, acked, nApp, nextId, kfTaken, held>>
+         \* 0.5-RTT data: the server may send 1-RTT packets right behind its Handshake packets, in the same datagram
+         a == IF sfApp THEN <<P("A", "s", 0, <<F("stream", nextId, 0)>>)>> ELSE <<>>
+     IN /\ IF coalesce THEN Send("s", <<i, h>> \o a) /\ pc' = 4
+           ELSE IF ~shSent THEN Send("s", <<i>>) /\ pc' = 3
+           ELSE Send("s", <<h>> \o a) /\ pc' = 4
+        /\ nextId' = IF sfApp /\ (coalesce \/ shSent) THEN nextId + 1 ELSE nextId
+  /\ UNCHANGED <<world, chSent, retried, sgen, acked, nApp, kfTaken, held>>
 
 ClientFinish ==
   /\ pc = 4
@@ -239,7 +242,7 @@ KeyUpdate ==
 Next == ClientHelloStep \/ RetryStep \/ ServerFlight \/ ClientFinish \/ ServerDone \/ AppDatagram \/ KeyUpdate \/ HoldDatagram \/ ReleaseHeld
 
 Init == /\ suite \in SuiteSet /\ first \in OfferFirst /\ split \in Splits /\ twoPkts \in BOOLEAN
-        /\ retry \in Retries /\ zrtt \in ZeroRtts /\ coalesce \in BOOLEAN /\ cfApp \in BOOLEAN
+        /\ retry \in Retries /\ zrtt \in ZeroRtts /\ coalesce \in BOOLEAN /\ cfApp \in BOOLEAN /\ sfApp \in BOOLEAN
         /\ (twoPkts => Len(split) >= 2)
         /\ (AllowEarlyGuess \/ ~zrtt \/ first = "same")            \* KF_EarlySuiteGuess excluded unless allowed
         /\ pc = 1 /\ chSent = 0 /\ retried = FALSE /\ sgen = [d \in Dir |-> 0] /\ acked = [d \in Dir |-> 0] /\ nApp = 0 /\ nextId = 1 /\ dgId = 1 /\ expect = <<>> /\ held = <<>> /\ sn = 1
@@ -274,5 +277,5 @@ ExportMonotone == [][IsPrefix(Output, Output')]_vars
 View == <<world, envv, implv, kfTaken>>
 Emit == (EmitOn /\ Done) =>
   PrintT(ToJson([suite |-> suite, first |-> first, split |-> split, twoPkts |-> twoPkts, retry |-> retry, zrtt |-> zrtt,
-                 coalesce |-> coalesce, cfApp |-> cfApp, hist |-> hist, out |-> Output, kf |-> kfTaken]))
+                 coalesce |-> coalesce, cfApp |-> cfApp, sfApp |-> sfApp, hist |-> hist, out |-> Output, kf |-> kfTaken]))
 =============================================================================
